@@ -46,8 +46,14 @@ func hookFor(kind string) bexpr.ValueTransformationHookFn {
 			for x.IsValid() && x.Kind() == reflect.Interface && !x.IsNil() {
 				x = x.Elem()
 			}
-			if x.IsValid() && x.Kind() == reflect.String && (x.String() == "POISON" || x.String() == "red") {
-				panic("hook refuses the value " + x.String())
+			if x.IsValid() && x.Kind() == reflect.String {
+				switch x.String() {
+				case "POISON", "red", "blue", "db", "web-1", "abc":
+					panic("hook refuses the value " + x.String())
+				}
+			}
+			if x.IsValid() && x.Kind() == reflect.Int && x.Int() == 3 {
+				panic("hook refuses the value 3")
 			}
 		case "poison":
 			x := v
